@@ -104,9 +104,18 @@ def failure_sets(t):
             if c.ok:
                 attempts[-1]['mods'].append(c.mib)
     for a in attempts:
+        fetch_ok.update(a['mods'])      # registered even if a later module of the same file failed
         if a['ok']:
             fetch_ok.add(a['name'])
-            fetch_ok.update(a['mods'])
+    # a module of a fetched file that never got through the symbol-table stage is a failure under its own name
+    sym_ok = set(c.mib for c in t.by('symtab.genCode') if c.ok)
+    implicit = set()
+    for c in t.by('symtab.genCode'):
+        if not c.ok and c.mib not in sym_ok:
+            if c.mib not in fetch_tried:
+                implicit.add(c.mib)      # pysmi books this failure under the name the file was fetched as
+            fetch_tried.add(c.mib)
+    t.implicit_failures = implicit
     # names that were needed but for which there is no source at all
     gen_fail = set(c.mib for c in t.by('codegen.genCode') if not c.ok)
     gen_ok = set(c.mib for c in t.by('codegen.genCode') if c.ok)
@@ -146,6 +155,24 @@ def judge(t):
                 cores.add(c.ctx)
     if cores:
         t.world.probe('coresident-failure-world')
+    # ground truth: a module named in the IMPORTS text of a processed module that no source holds (and no borrower
+    # supplied) is a failure even if the compiler never asked for it
+    from verif.gen import mibgen as _mg
+    held = set()
+    for s_ in scn.get('sources', ()):
+        held.update(k for k, h in s_.get('holds', {}).items() if h.get('o', 'ok') in ('ok', 'error'))
+        b_ = s_.get('base', 'all')
+        held.update(basemibs.ALL_BASE if b_ == 'all' else (b_ if isinstance(b_, list) else ()))
+    for ms in scn.get('files', {}).values():
+        held.update(ms)
+    supplied_b = set(c.mib for c in t.by('borrower.getData') if c.ok)
+    for c in t.by('symtab.genCode'):
+        sp = scn.get('modules', {}).get(c.mib) if c.ok else None
+        if sp is not None and not scn.get('alias'):
+            for d in _mg.declared_imports(sp):
+                if d not in held and d not in supplied_b and d not in F:
+                    F.add(d)
+                    t.world.probe('failure-known-from-ground-truth-only')
     if 'NO-SUCH-MIB' in scn.get('requested', ()) and not any(c.mib == 'NO-SUCH-MIB' and c.ok for c in t.by('borrower.getData')):
         F.add('NO-SUCH-MIB')
     if not scn.get('sources'):
@@ -174,20 +201,20 @@ def judge(t):
             V('C09.1-nothing-written', 'modules %s failed, errors not ignored, yet the writer was called for %s' % (sorted(F), sorted(set(c.mib for c in puts))),
               what='written-despite-failure', stage=scn.get('stage'))
         for b in sorted(B):
-            if b in F:
+            if b in F or b in cores:
                 continue
             if str(R.get(b)) != 'unprocessed':
                 V('C09.1-nothing-written', 'built module %s is reported %s, not unprocessed, although %s failed' % (b, R.get(b), sorted(F)),
                   what='built-not-unprocessed', status=str(R.get(b)), stage=scn.get('stage'))
         for f in sorted(F):
-            if f in cores:
+            if f in cores or f in getattr(t, 'implicit_failures', ()):
                 continue
             if str(R.get(f)) not in ('failed', 'missing'):
                 V('C09.1-nothing-written', 'failed module %s is reported %s' % (f, R.get(f)), what='failed-status', status=str(R.get(f)))
     else:
         wfail = set(scn.get('writer_fail', ())) | set(c.mib for c in puts if not c.ok)
         for b in sorted(B):
-            if b in F or b in wfail:
+            if b in F or b in wfail or b in cores:
                 continue
             s = str(R.get(b))
             if s not in ('compiled', 'borrowed'):
@@ -196,7 +223,7 @@ def judge(t):
             if writing and okput.get(b, 0) != 1:
                 V('C09.2-ignore-errors' if F else 'C09.3-no-failure-all-written', 'built module %s was written %d times' % (b, okput.get(b, 0)), what='built-not-written', stage=scn.get('stage'))
         for f in sorted(F):
-            if f in cores:
+            if f in cores or f in getattr(t, 'implicit_failures', ()):
                 continue
             if str(R.get(f)) not in ('failed', 'missing'):
                 V('C09.2-ignore-errors', 'bad module %s is reported %s, not failed/missing' % (f, R.get(f)), what='bad-status', status=str(R.get(f)))
